@@ -13,6 +13,18 @@ THEOREMS = [
     "Pedal.Cait.required_of_embAt",
 ]
 NOTES = [
+    "the theorems are about the Lean port `findMatches` of find_matches(pattern, code) (check_meta=True, "
+    "use_previous=None) over abstract trees; that the real matcher equals the port is SAMPLED by the "
+    "correspondence on every run, not proved; the embedding checker `checkMatch` the theorem is about is the very "
+    "function the driver evaluates on every match the REAL code returns (incl. find_match, CaitNode.find_matches "
+    "and sub-matches with use_previous, which the port does not model)",
+    "the embedding notion does not look at AST field names of the partners (kind, plain content, child-of-partner, "
+    "order, bindings only — DESIGN §4 C10): below a + or * the matcher compares no field and 'x[1:] + 0' matches "
+    "'x[:1] + 0'; that is an embedding in C10's sense (its consequence for C11 is an open C11 finding)",
+    "equal content = plain field values equal as Python values of the same type, identifier lists equal as lists; "
+    "Fields called ctx / args hold no plain values in CPython's grammar and are not content",
+    "pattern trees satisfy opLeaves (Add/Mult operator nodes are leaves): true of every ast tree, checked by the "
+    "driver on every request",
 ]
 
 if __name__ == "__main__":
